@@ -49,6 +49,10 @@ CMDS = {
 }
 TASK_CMDS = ("rtask", "gtask", "ftask")
 MAIN_CMDS = [c for c in CMDS if c not in TASK_CMDS]
+# the commands of the perf-cpuN.dat sweep (`perf_family`)
+CMDS["pfull"] = ("replay", ["--event-full"])
+CMDS["itask"] = ("info", ["--task"])
+PERF_CMDS = ["pfull", "dump", "chrome", "report", "graph", "info", "itask"]
 F18_OF_KIND = {"info": "F18i", "task": "F18t", "map": "F18m", "sym": "F18s"}
 
 # tag of the pre-fix model -> finding id
@@ -150,6 +154,8 @@ class Dir:
         return "/".join("%x:%s" % (a, ",".join("%d.%s.%d" % s for s in l)) for a, l in sorted(self.specs.items()))
 
     def kind(self, fname):
+        if fname.startswith("perf-cpu"):
+            return "perf"
         if fname.endswith(".dat"):
             return "dat"
         if fname == "info":
@@ -295,6 +301,140 @@ def dir_random(rng, idx):
         tasks.append(D.Task(101 + ti, recs) if ti == 0 else D.Task(101 + ti, recs, pid=101))
     dd.tasks = tasks
     return Dir("rand%d" % idx, dd, ";".join(argspec) or None, ";".join(retspec) or None, specs)
+
+
+# ---------------------------------------------------------------------------------------------
+# perf-cpuN.dat: the per-cpu files of scheduling / task / comm events (utils/perf.c read_perf_event)
+# ---------------------------------------------------------------------------------------------
+# A record is a struct perf_event_header {u32 type, u16 misc, u16 size} followed by size - 8 bytes.
+#   PERF_RECORD_SWITCH (14): sample_id {u32 pid, u32 tid, u64 time}
+#   PERF_RECORD_FORK (7) / PERF_RECORD_EXIT (4): {u32 pid, ppid, tid, ptid, u64 time} + sample_id
+#   PERF_RECORD_COMM (3): {u32 pid, tid, char comm[] (NUL-terminated, padded to 8)} + sample_id
+#   any other type is skipped by its size.
+P_COMM, P_EXIT, P_FORK, P_SWITCH = 3, 4, 7, 14
+P_NAMES = {P_COMM: "comm", P_EXIT: "task-exit", P_FORK: "task-new", P_SWITCH: "sched"}
+
+
+def p_hdr(typ, misc, body):
+    return struct.pack("<IHH", typ, misc, 8 + len(body)) + body
+
+
+def p_sample_id(pid, tid, t):
+    return struct.pack("<IIQ", pid, tid, t)
+
+
+def p_switch(pid, tid, t, out, preempt=False):
+    return p_hdr(P_SWITCH, (0x2000 if out else 0) | (0x4000 if (out and preempt) else 0), p_sample_id(pid, tid, t))
+
+
+def p_task(typ, pid, ppid, tid, ptid, t):
+    return p_hdr(typ, 0, struct.pack("<IIIIQ", pid, ppid, tid, ptid, t) + p_sample_id(pid, tid, t))
+
+
+def p_comm(pid, tid, comm, t, exec_=True):
+    c = comm.encode()[:15] + b"\0"
+    c += b"\0" * ((-len(c)) % 8)
+    return p_hdr(P_COMM, 0x2000 if exec_ else 0, struct.pack("<II", pid, tid) + c + p_sample_id(pid, tid, t))
+
+
+def p_other(typ, nbytes, fill):
+    """a record of a type the reader does not know (PERF_RECORD_LOST = 2, _THROTTLE = 5, _SAMPLE = 9, …)"""
+    return p_hdr(typ, 0, bytes((fill + i) & 0xff for i in range(nbytes)))
+
+
+def perf_frames(data):
+    """the record framing, written independently of the model: [(offset, type, size)] of the records that
+    are completely present in `data`, and the length of `data` cut at the last whole record"""
+    off, fr = 0, []
+    while off + 8 <= len(data):
+        typ, _misc, size = struct.unpack_from("<IHH", data, off)
+        if size < 8 or off + size > len(data):
+            break
+        fr.append((off, typ, size))
+        off += size
+    return fr, off
+
+
+def perf_whole(data):
+    return data[:perf_frames(data)[1]]
+
+
+def perf_events(dr, cpus, rng):
+    """per-cpu event lists for the directory `dr` (two tasks 101 and 103 with records in 2000..2900).
+    rng = None: the fixed layout."""
+    t1, t2 = dr.dd.tasks[0], dr.dd.tasks[1]
+    evs = {c: [] for c in cpus}
+
+    def cpu():
+        return cpus[0] if rng is None else rng.choice(cpus)
+
+    def add(c, t, b):
+        evs[c].append((t, b))
+    c1 = cpus[0]
+    c2 = cpus[-1]
+    add(c1, 1995, p_comm(t1.pid, t1.tid, "prog", 1995))
+    # scheduled out and in again inside open calls (blocked or pre-empted), both tasks
+    slots = [(t1, 2120, 2140), (t1, 2310, 2330), (t2, 2610, 2640), (t1, 2810, 2850)]
+    if rng is not None:
+        slots = [(tk, a + rng.randint(0, 8), b - rng.randint(0, 8)) for tk, a, b in slots if rng.random() < 0.8]
+    for i, (tk, a, b) in enumerate(slots):
+        pre = (i % 2 == 1) if rng is None else rng.random() < 0.4
+        c = c1 if tk is t1 else c2
+        add(c, a, p_switch(tk.pid, tk.tid, a, True, pre))
+        # the task may come back on another cpu
+        add(c if rng is None or rng.random() < 0.6 else cpu(), b, p_switch(tk.pid, tk.tid, b, False))
+    # the second task: created, named, gone
+    add(c1, 2452, p_task(P_FORK, t2.pid, t1.pid, t2.tid, t1.tid, 2452))
+    add(c2, 2460, p_comm(t2.pid, t2.tid, "worker-%d" % (0 if rng is None else rng.randint(0, 99999)), 2460, False))
+    add(c2, 2760, p_task(P_EXIT, t2.pid, t1.pid, t2.tid, t1.tid, 2760))
+    # events of a task that is not in the directory, records of types the reader skips
+    add(c2, 2470, p_switch(999, 999, 2470, True))
+    add(c2, 2480, p_switch(999, 999, 2480, False))
+    add(c1, 2200, p_other(9, 24 if rng is None else 8 * rng.randint(0, 6), 0x41))
+    add(c2, 2650, p_other(2, 16 if rng is None else 8 * rng.randint(0, 4), 0x61))
+    if rng is not None and rng.random() < 0.5:
+        add(cpu(), 2050, p_task(P_FORK, 999, t1.pid, 999, t1.tid, 2050))
+        add(cpu(), 2060, p_task(P_EXIT, 999, t1.pid, 999, t1.tid, 2060))
+    if rng is not None and rng.random() < 0.5:
+        add(cpu(), 2420, p_comm(t1.pid, t1.tid, "x" * rng.randint(1, 15), 2420))
+    add(c1, 2950, p_task(P_EXIT, t1.pid, 1, t1.tid, t1.tid, 2950))
+    if rng is not None:
+        # what ends a file: any kind of record
+        for c in cpus:
+            k = rng.choice(["exit", "new", "comm", "switch", "other", "none"])
+            t = 2960 + cpus.index(c)
+            if k == "exit":
+                add(c, t, p_task(P_EXIT, t1.pid, 1, t1.tid, t1.tid, t))
+            elif k == "new":
+                add(c, t, p_task(P_FORK, t1.pid, 1, t1.tid, t1.tid, t))
+            elif k == "comm":
+                add(c, t, p_comm(t1.pid, t1.tid, "last", t))
+            elif k == "switch":
+                add(c, t, p_switch(t1.pid, t1.tid, t, True))
+            elif k == "other":
+                add(c, t, p_other(5, 16, 0x30))
+    return {c: [b for _, b in sorted(l, key=lambda x: x[0])] for c, l in evs.items()}
+
+
+def dir_perf(rng=None, idx=0):
+    """a directory recorded with perf events (feature bit PERF_EVENT): two tasks, per-cpu files with scheduling,
+    task-new / task-exit, comm records and records of unknown types"""
+    syms = [(0x1000, 0x100, "main"), (0x1100, 0x80, "work"), (0x1200, 0x40, "leaf")]
+    dd = D.DataDir(syms, [], feat_extra=0x100)
+    A = dd.addr_of
+    r1 = [D.Rec(2000, 'E', 0, A("main")), D.Rec(2100, 'E', 1, A("work")), D.Rec(2150, 'X', 1, A("work")),
+          D.Rec(2300, 'E', 1, A("leaf")), D.Rec(2350, 'X', 1, A("leaf")), D.Rec(2800, 'E', 1, A("work")),
+          D.Rec(2870, 'X', 1, A("work")), D.Rec(2900, 'X', 0, A("main"))]
+    r2 = [D.Rec(2500, 'E', 0, A("work")), D.Rec(2600, 'E', 1, A("leaf")), D.Rec(2700, 'X', 1, A("leaf")),
+          D.Rec(2750, 'X', 0, A("work"))]
+    dd.tasks = [D.Task(101, r1), D.Task(103, r2, pid=101, start_time=2450)]
+    dr = Dir("perf" if rng is None else "perfrand%d" % idx, dd, None, None, {})
+    cpus = [0, 1] if rng is None else sorted(rng.sample([0, 1, 2, 3, 7, 10, 12], rng.randint(1, 3)))
+    dr.perf = {}
+    for c, recs in perf_events(dr, cpus, rng).items():
+        dr.files["perf-cpu%d.dat" % c] = b"".join(recs)
+        dr.perf["perf-cpu%d.dat" % c] = recs
+    return dr
 
 
 # ---------------------------------------------------------------------------------------------
@@ -1029,9 +1169,17 @@ def check(ctx, runner, dirs, jobs, kf, t_build):
                        {"kind": "model-code-disagreement", "what": "info field %r: model %r, implementation %r" % (
                            k2, v, mm.group(1) if mm else None), "dir": dr.name}, nfi=True)
 
+    # ---- perf-cpuN.dat: every cut of every per-cpu perf file ------------------------------------
+    tp = time.time()
+    pst = perf_family(ctx, runner, kf, report)
+    pst["wall_s"] = round(time.time() - tp, 1)
+    stats["monitor_fail"] += pst["monitor_fail"]
+    stats["disagree"] += pst["disagree"]
+
     ctx.coverage.update({
-        "evaluations": stats["runs"],
-        "distinct_nontrivial": len(distinct),
+        "evaluations": stats["runs"] + pst["runs"],
+        "distinct_nontrivial": len(distinct) + pst["distinct"],
+        "perf_files": pst,
         "rule": "exhaustive: every truncation length 0..size of every file (and the removal of each file) of "
                 "%d synthesized directories x the commands listed in `plan` (quick: all 6 on every .dat of the two "
                 "fixed directories, 4-5 commands on the args directory's task/map/sym, 1-2 on the tasks directory's "
@@ -1040,7 +1188,14 @@ def check(ctx, runner, dirs, jobs, kf, t_build):
                 "one random directory drawn from the seed; thorough: all 6 commands everywhere + 6 random directories); "
                 "every cut of the args directory's task/map/sym completed with a newline (replay); each cut is run, "
                 "and so are its copy cut at the last whole record and the mirror model's parse re-rendered as a file; "
-                "distinct = distinct (dir, file, cmd, exit, sanitizer, stdout hash, diagnostic, model result)" % len(dirs),
+                "distinct = distinct (dir, file, cmd, exit, sanitizer, stdout hash, diagnostic, model result).  "
+                "perf-cpuN.dat (coverage.perf_files): every truncation length 0..size of every per-cpu perf file (sched-in/out, "
+                "pre-emption, task-new, task-exit, comm, records of unknown types, events of foreign tasks) of one fixed and "
+                "%d seed-drawn directories (1-3 cpu files with holes in the numbering, random record order, lengths and last "
+                "record) x replay --event-full, dump, dump --chrome (+ report, graph, info, info --task: quick on the first "
+                "file of the fixed directory, thorough everywhere), the removal of each file and of all of them; every cut is "
+                "compared with its copy cut at the last whole perf record"
+                % (len(dirs), len(pst["dirs"]) - 1),
         "tree_flags": {"nl": {k2: v for k2, v in nl_tree.items() if k2 != "dat"}, "probes": probe_seen},
         "cuts_not_at_a_record_boundary": stats["not_at_record_boundary"],
         "cut_lines_completed_with_a_newline": stats["newline_completed_cuts"],
@@ -1056,7 +1211,8 @@ def check(ctx, runner, dirs, jobs, kf, t_build):
     })
     ctx.assumptions += [
         "regular files: fread fails only at end of file (no I/O errors)",
-        "little-endian 64-bit data (no byte swapping), no build-id / kernel / perf data in the directories",
+        "little-endian 64-bit data (no byte swapping), no build-id / kernel data in the directories; perf data only in the "
+        "directories of the perf-cpuN.dat sweep",
         "UBSan's nonnull-attribute reports for bsearch/qsort(NULL, 0, ...) on an empty symbol table are counted, not "
         "treated as violations",
         "a record of a text file is a line with its newline; the tree's handling of a last line without one is observed "
@@ -1067,6 +1223,199 @@ def check(ctx, runner, dirs, jobs, kf, t_build):
     ctx.notes.append("tree flags observed (1 = C12-F18 repair present): " + ", ".join(
         "%s=%d" % (k2, v) for k2, v in sorted(nl_tree.items()) if k2 != "dat"))
     return C.finish(ctx)
+
+
+# ---------------------------------------------------------------------------------------------
+# the perf-cpuN.dat sweep
+# ---------------------------------------------------------------------------------------------
+def parse_perf_model(line):
+    """`perf` op of uv_C12 -> dict(n, st, evs = [(type, misc, pid, tid, time)])"""
+    w = line.split()
+    r = {"raw": line, "n": int(w[0].split("=")[1]), "st": w[1].split("=")[1], "evs": []}
+    rest = line.split("|", 1)[1].strip() if "|" in line else ""
+    for x in rest.split(";"):
+        x = x.strip()
+        if x:
+            r["evs"].append(tuple(int(v) for v in x.split(",")))
+    return r
+
+
+def perf_event_name(typ, misc):
+    if typ == P_SWITCH:
+        return "linux:sched-in" if not misc & 0x2000 else (
+            "linux:sched-out (pre-empted)" if misc & 0x4000 else "linux:sched-out")
+    return {P_FORK: "linux:task-new", P_EXIT: "linux:task-exit", P_COMM: "linux:task-name"}[typ]
+
+
+def dump_perf_block(out, fname):
+    """the event lines raw `dump` prints under "reading <fname>": [(time ns, tid, event name)]"""
+    got, on = [], False
+    for l in out.split("\n"):
+        if l.startswith("reading "):
+            on = l.strip() == "reading " + fname
+            continue
+        m = re.match(r"^(\d+)\.(\d{9}) +(\d+): \[event\] (.*)\(\d+\)", l)
+        if on and m:
+            got.append((int(m.group(1)) * 1000000000 + int(m.group(2)), int(m.group(3)), m.group(4)))
+    return got
+
+
+def drop_empty_perf_headings(out):
+    """raw `dump` announces a per-cpu file that is not empty ("reading perf-cpuN.dat") before it reads it, and says
+    nothing about an empty one: a file cut inside its first record gets the heading and no event line.  The heading
+    names the file, not a record of it, so headings without an event line below them are not compared."""
+    ls = out.split("\n")
+    keep = []
+    for i, l in enumerate(ls):
+        if re.fullmatch(r"reading perf-cpu\d+\.dat", l.strip()) and not (i + 1 < len(ls) and "[event]" in ls[i + 1]):
+            continue
+        if l.strip():       # the blank line in front of the per-cpu blocks goes with the first heading
+            keep.append(l)
+    return "\n".join(keep)
+
+
+def perf_family(ctx, runner, kf, report):
+    """every truncation length of every perf-cpuN.dat (and its removal, and the removal of all of them) of the
+    directories of `dir_perf`: monitor = the output on the cut equals the output on the copy cut at the last whole
+    perf record (framing by `perf_frames`, independent of the model); correspondence = the events `Trunc.readPerfAll`
+    (the reader as coded) delivers from the cut are the records completely present and the events raw `dump` lists."""
+    quick = ctx.tier == "quick"
+    dirs = [dir_perf()] + [dir_perf(ctx.rng, i) for i in range(1 if quick else 5)]
+    st = {"dirs": {d.name: {n: len(b) for n, b in d.files.items() if d.kind(n) == "perf"} for d in dirs},
+          "cuts": 0, "runs": 0, "monitor_fail": 0, "disagree": 0, "cuts_inside_a_record": 0,
+          "cuts_in_the_trailing_sample_id_of_a_task_record": 0, "record_types_cut": {}}
+    jobs = []
+    for dr in dirs:
+        pfiles = sorted(n for n in dr.files if dr.kind(n) == "perf")
+        for fi, fname in enumerate(pfiles):
+            if not quick or (dr.name == "perf" and fi == 0):
+                cmds = list(PERF_CMDS)
+            elif dr.name == "perf":
+                cmds = ["pfull", "dump", "chrome"]
+            else:
+                cmds = ["pfull", "dump"]
+            for c in cmds:
+                jobs.append((dr, fname, None, c))
+                for k in range(len(dr.files[fname]) + 1):
+                    jobs.append((dr, fname, k, c))
+        for c in PERF_CMDS:
+            jobs.append((dr, "*", None, c))
+    # model
+    cuts = {}
+    for dr, fname, k, c in jobs:
+        if k is not None:
+            cuts.setdefault((dr.name, fname, k), (dr, fname, k))
+    ckeys = list(cuts)
+    mout = C.run_model("C12", ["perf 0 %s" % (cuts[key][0].files[cuts[key][1]][:key[2]].hex() or "-") for key in ckeys])
+    model = {key: parse_perf_model(C.norm(l)) for key, l in zip(ckeys, mout)}
+    # implementation
+    runs = {}
+
+    def files_of(dr, fname, content):
+        fs = dict(dr.files)
+        if fname == "*":
+            for n in list(fs):
+                if dr.kind(n) == "perf":
+                    fs[n] = None
+        else:
+            fs[fname] = content
+        return fs
+    for dr, fname, k, c in jobs:
+        data = None if k is None else dr.files[fname][:k]
+        runs.setdefault((dr.name, fname, c, data), None)
+        if data is not None:
+            runs.setdefault((dr.name, fname, c, perf_whole(data)), None)
+    byname = {d.name: d for d in dirs}
+
+    def one(t):
+        i, rk = t
+        return rk, runner.run(files_of(byname[rk[0]], rk[1], rk[3]), rk[2], "p%d" % i)
+    with ThreadPoolExecutor(14) as ex:
+        for rk, r in ex.map(one, list(enumerate(runs))):
+            runs[rk] = r
+    st["runs"] = len(runs)
+    st["cuts"] = len(cuts)
+    distinct = set()
+    for dr, fname, k, c in jobs:
+        data = None if k is None else dr.files[fname][:k]
+        r = runs[(dr.name, fname, c, data)]
+        base = {"dir": dr.name, "file": fname, "cut": k, "size": len(dr.files.get(fname, b"")),
+                "cmd": " ".join((CMDS[c][0],) + tuple(CMDS[c][1])),
+                "files_hex": {n: b.hex() for n, b in dr.files.items()},
+                "impl": {"rc": r["rc"], "san": r["san"], "diag": r["diag"], "stdout": r["out"][:2500]}}
+        if k is None:
+            # a perf file (or all of them) removed: the events of that cpu are missing, nothing else happens
+            distinct.add((dr.name, fname, "removed", c, r["rc"], hashlib.md5(r["out"].encode()).hexdigest()[:8]))
+            if r["san"] or r["rc"] != 0:
+                st["monitor_fail"] += 1
+                report("perf-removed-file", "property-violated-on-implementation",
+                       dict(base, kind="property-violated-on-implementation",
+                            what="removing %s: %s" % (fname, r["san"] or "exit status %d (%s)" % (r["rc"], r["diag"]))))
+            continue
+        frames, wl = perf_frames(data)
+        r_w = runs[(dr.name, fname, c, data[:wl])]
+        m = model[(dr.name, fname, k)]
+        inside = wl != k
+        if c == "pfull":
+            st["cuts_inside_a_record"] += 1 if inside else 0
+            if inside and k - wl >= 8:
+                typ, _, size = struct.unpack_from("<IHH", data, wl)
+                nm = P_NAMES.get(typ, "other")
+                st["record_types_cut"][nm] = st["record_types_cut"].get(nm, 0) + 1
+                if typ in (P_FORK, P_EXIT) and k - wl >= size - 16:
+                    st["cuts_in_the_trailing_sample_id_of_a_task_record"] += 1
+        distinct.add((dr.name, fname, c, r["rc"], r["san"], hashlib.md5(r["out"].encode()).hexdigest()[:8], m["n"]))
+        bad = None
+        if r["san"]:
+            bad = "sanitizer/hang/signal: " + r["san"]
+        elif r["rc"] not in (0, 1, 255):
+            bad = "exit status %d" % r["rc"]
+        elif r["rc"] != 0 and not r["diag"]:
+            bad = "non-zero exit status without a diagnostic"
+        elif not same(r, r_w) and not (c == "dump" and same(dict(r, out=drop_empty_perf_headings(r["out"])),
+                                                            dict(r_w, out=drop_empty_perf_headings(r_w["out"])))):
+            bad = "output differs from the output on the copy cut at the last whole perf record (%d bytes)" % wl
+        elif c == "dump" and not same(r, r_w):
+            st["dump_heading_of_a_file_without_whole_record"] = st.get("dump_heading_of_a_file_without_whole_record", 0) + 1
+        # the model (reader as coded) against the framing and against what raw dump lists
+        dis = None
+        known = [(o, t, z) for o, t, z in frames if t in P_NAMES]
+        want = []
+        for o, t, z in known:
+            misc = struct.unpack_from("<H", data, o + 4)[0]
+            if t == P_SWITCH:
+                pid, tid, tm = struct.unpack_from("<IIQ", data, o + 8)
+            elif t == P_COMM:
+                pid, tid = struct.unpack_from("<II", data, o + 8)
+                tm = struct.unpack_from("<Q", data, o + z - 8)[0]
+            else:
+                pid, _pp, tid, _pt, tm = struct.unpack_from("<IIIIQ", data, o + 8)
+            want.append((t, misc, pid, tid, tm))
+        if m["st"] != "eof" or m["evs"] != want:
+            dis = "model delivers %r (%s), the records completely present are %r" % (m["evs"], m["st"], want)
+        elif c == "dump" and not r["san"] and r["rc"] == 0:
+            shown = dump_perf_block(r["out"], fname)
+            mine = [(tm, tid, perf_event_name(t, misc)) for t, misc, _pid, tid, tm in m["evs"] if tid in dr.tids]
+            if shown != mine:
+                dis = "raw dump lists %r under %s, the model's reader delivers %r" % (shown, fname, mine)
+        if bad:
+            st["monitor_fail"] += 1
+            report("perf-cut", "property-violated-on-implementation",
+                   dict(base, kind="property-violated-on-implementation", what=bad, whole_record_copy_bytes=wl,
+                        records_completely_present=[(o, P_NAMES.get(t, "type %d" % t), z) for o, t, z in frames],
+                        cut_record=(None if not inside or k - wl < 8 else
+                                    "%s, %d of %d bytes present" % ((lambda t, z: (P_NAMES.get(t, "type %d" % t), k - wl, z))(
+                                        *struct.unpack_from("<IHH", data, wl)[0:3:2]))),
+                        model=m["raw"][:400],
+                        expected={"rc": r_w["rc"], "diag": r_w["diag"], "stdout": r_w["out"][:2500]},
+                        theorem="c12_perf_cut_equals_whole_prefix / c12_perf_commands_prefix"))
+        if dis and not bad:
+            st["disagree"] += 1
+            report("perf-correspondence", "model-code-disagreement",
+                   dict(base, kind="model-code-disagreement", what=dis, model=m["raw"][:400],
+                        theorem="c12_perf_cut_equals_whole_prefix"), nfi=True)
+    st["distinct"] = len(distinct)
+    return st
 
 
 def replay(ctx, path):
